@@ -190,7 +190,14 @@ class Forest:
             ref = self.p.new(rnd.choice(["Tuple", "Array"]), *[v for v in vals if not isinstance(v, (dict, list))])
             return self.put(ref, "term", tables=[], agg=False)
         if r < 0.95:
-            ref = self.p.new("Interval", **{rnd.choice(["days", "hours", "months", "years", "seconds"]): rnd.randint(1, 30)})
+            if rnd.random() < 0.5:
+                kw = {rnd.choice(["days", "hours", "months", "years", "seconds"]): rnd.randint(1, 30)}
+            else:  # composite, either sign, small magnitudes (so that different objects share magnitudes)
+                units = rnd.choice([["days", "hours"], ["hours", "minutes"], ["years", "months"], ["days", "hours", "minutes"],
+                                    ["minutes", "seconds"], ["seconds", "microseconds"], ["days", "seconds"]])
+                sign = rnd.choice([1, 1, -1])
+                kw = {u: sign * rnd.randint(1, 4) for u in units}
+            ref = self.p.new("Interval", **kw)
             a = self.field(tables)
             ref = self.p.bin(rnd.choice(["+", "-"]), a.ref, ref)
             return self.put(ref, "term", tables=a.info.get("tables", []), agg=False)
